@@ -24,7 +24,10 @@ async def main(c):
             return True
 
         def message_from_client(self, message):
-            if getattr(message, "name", None) == "POISON":
+            name = getattr(message, "name", None)
+            if name in ("ECHO", "ECHOPOISON"):      # the device answers while the message is being handled
+                router.process_message(SetTextVector(device="CAM", name="T", state="Ok", children=[OneText(name="t", value="echo")]), sender=self)
+            if name in ("POISON", "ECHOPOISON"):
                 raise RuntimeError("handler exception injected")
 
     poison = Poison()
@@ -92,28 +95,9 @@ async def main(c):
                       "received": {str(k): len(v.received) for k, v in conns.items()},
                       "blobs": {str(k): sum(1 for r in v.received if "setBLOBVector" in r) for k, v in conns.items()}})
 
-    for st in c["script"]:
-        if st[0] == "open":
-            cn = Conn(st[1], st[2])
-            conns[st[1]] = cn
-            if st[2] == "tcp":
-                from indi.transport.server.tcp import ConnectionHandler
-                orig = ConnectionHandler.__init__
-
-                def spy(self, *a, _cn=cn, _orig=orig, **k):
-                    _orig(self, *a, **k)
-                    _cn.handler = self
-                ConnectionHandler.__init__ = spy
-                try:
-                    cn.task = asyncio.get_running_loop().create_task(ConnectionHandler.handler(router)(cn, cn))
-                    await settle()
-                finally:
-                    ConnectionHandler.__init__ = orig
-            else:
-                from indi.transport.server.tty import ConnectionHandler
-                cn.handler = ConnectionHandler(router, cn, cn)
-                cn.task = asyncio.get_running_loop().create_task(cn.handler.handle())
-        elif st[0] == "peer":
+    def plain(st):
+        """steps that need no waiting: may be put together in one burst, nothing runs in between"""
+        if st[0] == "peer":
             conns[st[1]].q.put_nowait(st[2])
         elif st[0] == "dev":
             if st[1]:
@@ -136,8 +120,37 @@ async def main(c):
                 cn.q.put_nowait("")
             elif how == "handler-exception":
                 cn.q.put_nowait('<newTextVector device="CAM" name="POISON"><oneText name="t">x</oneText></newTextVector>')
+            elif how == "echo-raise":
+                cn.q.put_nowait('<newTextVector device="CAM" name="ECHOPOISON"><oneText name="t">x</oneText></newTextVector>')
         elif st[0] == "writefail":
             conns[st[1]].write_fails = True
+
+    for st in c["script"]:
+        if st[0] == "burst":
+            for sub in st[1]:
+                plain(sub)
+        elif st[0] == "open":
+            cn = Conn(st[1], st[2])
+            conns[st[1]] = cn
+            if st[2] == "tcp":
+                from indi.transport.server.tcp import ConnectionHandler
+                orig = ConnectionHandler.__init__
+
+                def spy(self, *a, _cn=cn, _orig=orig, **k):
+                    _orig(self, *a, **k)
+                    _cn.handler = self
+                ConnectionHandler.__init__ = spy
+                try:
+                    cn.task = asyncio.get_running_loop().create_task(ConnectionHandler.handler(router)(cn, cn))
+                    await settle()
+                finally:
+                    ConnectionHandler.__init__ = orig
+            else:
+                from indi.transport.server.tty import ConnectionHandler
+                cn.handler = ConnectionHandler(router, cn, cn)
+                cn.task = asyncio.get_running_loop().create_task(cn.handler.handle())
+        else:
+            plain(st)
         await settle()
         snapshot(st)
     for cn in conns.values():
